@@ -5,7 +5,13 @@ the buffer, loop fuel is never the reason of a failure when items consume input,
 accepted values are well-shaped).  The memory safety of the compiled C is a
 runtime fact: it is OBSERVED here with ASan+UBSan+LSan and an allocation ledger
 on mutated inputs, not proved (claim level: partial).
-Tie, four layers:
+Tie, five layers:
+ (member-lookup layer) type shapes that select each branch of the member lookup of the BER decoders of SEQUENCE / SET /
+   CHOICE (run of OPTIONAL members, bsearch in the tag-to-member table, untagged CHOICE members, a tag re-used behind a
+   mandatory member) under STRUCTURAL faults (a member TLV twice, moved, swapped, repeated, inserted) and the analogous
+   element / presence-bit faults of XER, UPER, OER (lib/c04_tagmap.py, `d4m`): besides the common oracle, an RC_OK result
+   must hold every TLV that was accepted; coq/Rt/SafetyTagMap.v run on the tables read from the emitted descriptors
+   (`tm4`) must give the C's verdict and set of members.
  (leaf layer) the four functions that skip what an extensible type does not know (ber_skip_length,
    uper_open_type_skip, oer_open_type_skip, xer_skip_unknown) through harness/leafdrv_c04.inc against
    coq/Rt/SafetySkip.v: well-formed nested TLVs / open types cut at every offset and damaged.
@@ -1049,12 +1055,13 @@ def main(tier):
           "extraction: ExtrOcamlBasic only; OCaml 4.13.1; the model runs with a 64 MB stack (EXN Stack overflow = no statement)",
           "lib/modgen.py (generator, independent X.680 tagging), lib/widegen.py, lib/c04_util.py (mutators; BER walker used by the finding predicates)",
           "harness/moddrv.c + harness/moddrv_c04.inc: exact-size poisoned input buffer, allocation ledger by --wrap=malloc/calloc/realloc/free, ITIMER_VIRTUAL hang guard (2 s CPU); d4x: two more decodes with 32 octets behind the input",
+          "lib/c04_tagmap.py (member-lookup shapes; their DER is built by the generator and must be accepted and re-encoded identically by the C), `tm4` (tables read from the emitted descriptors), `d4m` (members present, second-generation DER)",
           "lib/c04_ext.py + lib/extgen.py (families of extensible types, wrappers' DER derived from the model's DER of the plain member, leaf case generator with answers known by construction), harness/leafdrv_c04.inc",
           "gcc 12 -O1 with ASan + UBSan + LSan: memory safety / UB / leaks of the C are OBSERVED on the generated inputs, not proved"]
     return run.finish("proof", (nthm, ndis), trusted_base=tb,
                       checker_cmd="make -C /verif all && coqc -Q coq A1 coq/Props/Properties_C04.v",
                       extra_cov={"theorems": names, "modules": len(mods), "wide_modules": len(wmods), "ext_modules": len(xmods), "tagmap_modules": len(tmods), "leaf_lines": nleaf,
-                                 "rule": "one case = one `d4` / `d4x` command (type, syntax, input octets) or one leaf command (skiplen / uskip / oskip / xskip / xskiprun); inputs are distinct per (type, syntax); mutants of valid DER/UPER/OER/XER encodings (truncation at every offset, tag/length octet bit flips, length forms, re-framings, splice, text damage), random strings, deep-nesting inputs; extensible-type layer: every encoding of a newer family member read by every member, every prefix, frame cuts, end-of-contents damage",
+                                 "rule": "one case = one `d4` / `d4x` / `d4m` command (type, syntax, input octets), one `tmapok` table check, or one leaf command (skiplen / uskip / oskip / xskip / xskiprun); inputs are distinct per (type, syntax); mutants of valid DER/UPER/OER/XER encodings (truncation at every offset, tag/length octet bit flips, length forms, re-framings, splice, text damage), random strings, deep-nesting inputs; extensible-type layer: every encoding of a newer family member read by every member, every prefix, frame cuts, end-of-contents damage; member-lookup layer: structural faults at the member level (dupadj dupalt dupdist swap early late reprun all2 del foreign otheralt) of values of shapes that select each lookup branch, XER element re-arrangements, UPER/OER leading-octet bit flips",
                                  "traces_validated_against_impl": run.cov["evaluations"]},
                       assumptions=["PARTIAL: the theorems are about the Gallina reference decoders (consumed accounting, bounds, fuel, shape); memory safety, UB-freedom and leak-freedom of the compiled C are observed with sanitizers on the mutated inputs only",
                                    "the C accepting what the reference rejects (lenient decoding) is counted, not judged; XER and the wide algebra have no model (survival / consistency only)",
